@@ -1485,6 +1485,72 @@ theorem evalL_spec {st : St} (inv : Inv lower st) : ∀ (qs : QList), qs.wf st =
       and_self]
 end
 
+/-- whatever satisfies a (well-formed) leaf is a live point -/
+theorem Leaf.sat_live {st : St} (l : Leaf) (hwf : l.wf st = true) (i : Id) (h : l.sat lower st i) :
+    ∃ p ∈ st.pts, p.id = i := by
+  have key : docOf st.pts i ≠ none → ∃ p ∈ st.pts, p.id = i := by
+    intro hne
+    by_cases hex : ∃ p ∈ st.pts, p.id = i
+    · exact hex
+    · exact absurd ((docOf_eq_none_iff st.pts i).2 (fun p hp hpi => hex ⟨p, hp, hpi⟩)) hne
+  have idk : ∀ u, idOf st.pts u = some i → ∃ p ∈ st.pts, p.id = i := by
+    intro u hu
+    unfold idOf at hu
+    cases hf : st.pts.find? (fun p => p.uuid == u) with
+    | none => simp [hf] at hu
+    | some p =>
+      simp only [hf, Option.map_some, Option.some.injEq] at hu
+      exact ⟨p, List.mem_of_find?_eq_some hf, hu⟩
+  cases l with
+  | str path op v e =>
+    obtain ⟨cs, kv, _, a, ha, _⟩ := h
+    apply key; intro hn; simp [strVals, hn, getProp] at ha
+  | strArr path all vs =>
+    simp only [Leaf.wf, Bool.and_eq_true, Bool.not_eq_true', List.isEmpty_eq_false_iff] at hwf
+    obtain ⟨cs, kv, _, h⟩ := h
+    have hmem : ∃ q, q ∈ arrVals lower cs path (docOf st.pts i) := by
+      cases all with
+      | true =>
+        simp only [if_true] at h
+        cases vs with
+        | nil => exact absurd rfl hwf.2
+        | cons q vs => exact ⟨_, h q (List.mem_cons_self ..)⟩
+      | false =>
+        simp only [Bool.false_eq_true, if_false] at h
+        obtain ⟨q, _, hq⟩ := h; exact ⟨_, hq⟩
+    obtain ⟨q, hq⟩ := hmem
+    apply key; intro hn; simp [arrVals, hn, getProp] at hq
+  | int path op v e =>
+    obtain ⟨kv, _, a, ha, _⟩ := h
+    apply key; intro hn; simp [intVals, hn, getProp] at ha
+  | flt path op v e =>
+    obtain ⟨kv, _, a, ha, _⟩ := h
+    apply key; intro hn; simp [fltVals, hn, getProp] at ha
+  | idEq u => exact idk u h
+  | idAny us => obtain ⟨u, _, hu⟩ := h; exact idk u hu
+
+mutual
+theorem Query.sat_live {st : St} : ∀ (q : Query), q.wf st = true → ∀ i, q.sat lower st i → ∃ p ∈ st.pts, p.id = i
+  | .leaf l, hwf, i, h => Leaf.sat_live lower l (by simpa [Query.wf] using hwf) i (by simpa [Query.sat] using h)
+  | .and .nil, hwf, _, _ => by simp [Query.wf] at hwf
+  | .and (.cons q qs), hwf, i, h => by
+    simp only [Query.wf, QList.wf, Bool.and_eq_true] at hwf
+    simp only [Query.sat, QList.satAll] at h
+    exact Query.sat_live q hwf.2.1 i h.1
+  | .or qs, hwf, i, h => by
+    simp only [Query.wf, Bool.and_eq_true] at hwf
+    simp only [Query.sat] at h
+    exact QList.satAny_live qs hwf.2 i h
+theorem QList.satAny_live {st : St} : ∀ (qs : QList), qs.wf st = true → ∀ i, qs.satAny lower st i → ∃ p ∈ st.pts, p.id = i
+  | .nil, _, _, h => by simp [QList.satAny] at h
+  | .cons q qs, hwf, i, h => by
+    simp only [QList.wf, Bool.and_eq_true] at hwf
+    simp only [QList.satAny] at h
+    rcases h with h | h
+    · exact Query.sat_live q hwf.1 i h
+    · exact QList.satAny_live qs hwf.2 i h
+end
+
 theorem write_rejected (st : St) (op : WOp) (h : st.accepts lower op = false) : st.write lower op = st := by
   simp [St.write, h]
 
